@@ -59,15 +59,23 @@ def deleg_behaviours(behs, prefix):
 PARENT_D = {"p": "root", "c": "p", "g": "c", "s": "p"}
 
 
-def validate_trace(ctx, cfg, trace, nb, what, driver_violations):
+def validate_trace(ctx, cfg, trace, nb, what, driver_violations, base_inp=None, driver=None):
     nlines = sum(1 for _ in open(trace))
     ok, r = ctx.tlc_trace("Lease", "Trace_Lease.tla", cfg, trace, timeout=900)
-    info = {"trace_lines": nlines, "trace_matched": max(0, r.depth - 1), "behaviours": nb}
+    info = {"trace_lines": nlines, "trace_matched": max(0, r.depth - 1), "trace_behaviours": nb}
     if r.violated and r.violated != "TraceAccepted":
         lines = open(trace).read().splitlines()[: r.depth + 1]
+        replay = {"trace_prefix": lines[-40:]}
+        if base_inp is not None:
+            # the behaviour the failing line belongs to, so --replay re-executes it on the code
+            idx = sum(1 for ln in lines[: r.depth] if '"ev":"Reset"' in ln) - 1
+            if 0 <= idx < len(base_inp["behaviours"]):
+                one = dict(base_inp, behaviours=[base_inp["behaviours"][idx]])
+                one.pop("traceOut", None)
+                replay.update({"driver": driver, "input": one})
         ctx.violation("%s/trace/%s" % (what, r.violated),
                       "[%s] %s is false on a recorded execution of the real code (trace line %d)"
-                      % (what, r.violated, r.depth), {"trace_prefix": lines[-40:]})
+                      % (what, r.violated, r.depth), replay)
     elif not ok:
         if driver_violations:
             ctx.log("trace rejected after %d of %d lines (driver already reported a violation)" % (r.depth - 1, nlines))
@@ -124,27 +132,27 @@ def run_api(ctx):
     info = {"behaviours": len(bl), "clock_modes": 2, "steps": steps, "drift": res["drift"],
             "drift_notes": res.get("drift_notes", [])}
     # ---- code -> spec ---------------------------------------------------------
-    info.update(validate_trace(ctx, "Trace_LeaseDeleg.cfg", trace, len(bl), "C08 API", res.get("violations")))
+    info.update(validate_trace(ctx, "Trace_LeaseDeleg.cfg", trace, len(bl), "C08 API", res.get("violations"), inp, "c08-deleg"))
     ctx.cov["replay"]["c08_api"] = info
     return info
 
 
 def run_replay(ctx, path):
-    """bin/check --replay: re-run exactly the recorded behaviour (driver replays) or re-validate the
-    recorded trace prefix (trace-monitor replays).  Returns False if the file is not an API-tier replay."""
+    """bin/check --replay: re-execute exactly the recorded behaviour on the code under test (driver
+    predicates + trace monitor).  Returns False if the file is not an API-tier replay."""
     import json
     with open(path) as f:
         rep = json.load(f)
     body = rep.get("replay", {})
-    if isinstance(body, dict) and body.get("driver") == "c08-deleg":
-        res = ctx.go_driver("./c08", "TestDelegReplay", body["input"], name="replay", timeout=900)
-        ctx.take_driver_result(res, "[C08 API replay] ")
-        ctx.cov["replay"]["replayed"] = {"behaviour": body.get("behaviour"), "steps": len(body.get("history", []))}
-        return True
-    if isinstance(body, dict) and "trace_prefix" in body:
-        trace = os.path.join(ctx.scratch, "replay.ndjson")
-        with open(trace, "w") as f:
-            f.write("\n".join(body["trace_prefix"]) + "\n")
-        ctx.cov["replay"]["replayed"] = validate_trace(ctx, "Trace_LeaseDeleg.cfg", trace, 1, "C08 API", None)
-        return True
-    return False
+    if not (isinstance(body, dict) and body.get("driver") == "c08-deleg" and "input" in body):
+        return False
+    ctx.tlc("Lease", "MC_LeaseDeleg.tla", "MC_LeaseDeleg_ceil.cfg", workers=4, timeout=600, heap="4g", tag="replay-sanity")
+    trace = os.path.join(ctx.scratch, "replay.ndjson")
+    inp = dict(body["input"], traceOut=trace)
+    res = ctx.go_driver("./c08", "TestDelegReplay", inp, name="replay", timeout=900)
+    ctx.take_driver_result(res, "[C08 API replay] ")
+    info = {"behaviour": body.get("behaviour"), "steps": res.get("counters", {}).get("steps", 0)}
+    info.update(validate_trace(ctx, "Trace_LeaseDeleg.cfg", trace, 1, "C08 API replay", res.get("violations"), inp, "c08-deleg"))
+    ctx.cov["replay"]["replayed"] = info
+    ctx._distinct.update(["replay:" + path, "replay-steps:%d" % info["steps"]])
+    return True
